@@ -17,7 +17,7 @@ def cvalStr : CVal → String
 
 def hdrOf (s : String) : Option Hdr :=
   match s.splitOn "," with
-  | [i, iv, c, op, cv, u, uk, uv] => do
+  | [i, iv, c, op, cv, u, uk, uv, sd] => do
     let init ← match i with
       | "e" => some InitForm.empty | "n" => some .notDecl | "m" => some .multi | "v" => some .noValue
       | "t" => some .badType | "k" => some .ok | _ => none
@@ -36,7 +36,9 @@ def hdrOf (s : String) : Option Hdr :=
     let iv' ← cvalOf iv
     let cv' ← cvalOf cv
     let uv' ← cvalOf uv
-    pure ⟨init, iv', check, op', cv', upd, uk', uv'⟩
+    let side ← match sd with
+      | "r" => some true | "l" => some false | "-" => some false | _ => none
+    pure ⟨init, iv', check, op', cv', upd, uk', uv', side⟩
   | _ => none
 
 def hdrStr (h : Hdr) : String :=
@@ -50,7 +52,8 @@ def hdrStr (h : Hdr) : String :=
     | .notExpr => "x" | .badNode => "t" | .badOp => "o" | .wrongVar => "w" | .ok => "k"
   let uk := match h.uk with
     | some .inc => "inc" | some .dec => "dec" | some .add => "add" | some .sub => "sub" | none => "-"
-  ",".intercalate [i, cvalStr h.initv, c, op, cvalStr h.checkv, u, uk, cvalStr h.updv]
+  let sd := if h.check != .ok then "-" else if h.iterRight then "r" else "l"
+  ",".intercalate [i, cvalStr h.initv, c, op, cvalStr h.checkv, u, uk, cvalStr h.updv, sd]
 
 def usesOf (s : String) : Option (List Bool) :=
   s.toList.mapM fun c => if c = 's' then some true else if c = 'x' then some false else none
